@@ -205,13 +205,16 @@ FindDo(w, fs, t, cands, i) ==
     ELSE IF fs[cands[i]].ex THEN [w |-> AddDep(w, t, "m", cands[i]), df |-> cands[i]]
     ELSE FindDo(AddDep(w, t, "c", cands[i]), fs, t, cands, i + 1)
 
-StartSelf(w, e, t, sf, cands, nullStampPanics) ==
+StartSelf(w, e, t, sf, cands, nullStampPanics, overrideStale) ==
     LET new   == CurStamp(e.fs, t)
         warn  == sf.gen /\ new # Missing /\ (sf.ovr \/ sf.stamp = None \/ DetectOverride(sf.stamp, new))
         \* pinned: unwrap() of a NULL stamp (a record that redo-stamp marked generated in a build that was killed before it
         \* was recorded, and a file now exists); repaired: a file beside a generated record without a stamp is not ours
         bad   == nullStampPanics /\ sf.gen /\ new # Missing /\ ~sf.ovr /\ sf.stamp = None
-        sf1   == IF warn /\ ~sf.ovr THEN SetOverride(sf, new, e.rid) ELSE sf
+        \* pinned (overrideStale): the record of an overridden file was written only when the override was first noticed; after a
+        \* second hand edit its stamp stayed behind for good (the file "changed" in every run: dependents rebuilt by every
+        \* redo-ifchange, listed by redo-ood right after a build); repaired: refreshed whenever the override branch is taken
+        sf1   == IF warn /\ (~sf.ovr \/ ~overrideStale) THEN SetOverride(sf, new, e.rid) ELSE sf
         w1    == IF warn THEN Save(w, t, sf1) ELSE w
     IN
     IF bad THEN [k |-> "panic", w |-> w, rv |-> 101, df |-> "", sf |-> sf, ovr |-> FALSE]
